@@ -180,29 +180,36 @@ inductive ChOut where
   | arrays (a : Dict String (List Rat)) (flags : Option (List Nat)) (time : Option (Nat × Rat))
   deriving DecidableEq, Repr, Inhabited
 
+/-- what `getArrays` delivers for one channel entry -/
+def chanOut (includetime : Bool) (ent : ChEntry) : Except Err ChOut :=
+  match ent.data with
+  | .bp b => (forgeBP b).map (fun f => ChOut.forged f ent.flags includetime)
+  | .arr a sr =>
+    if includetime && !(Dict.has a "time") then
+      match sr with
+      | .num s => if s = 0 then .error .value else .ok (ChOut.arrays a ent.flags (some (arrLen a, s)))
+      | _ => .error .type
+    else .ok (ChOut.arrays a ent.flags none)
+  | .broken => .error .key
+
 /-- `Element.getArrays(includetime)` -/
 def getArrays (e : Element) (includetime : Bool) : Except Err (Dict Chan ChOut) :=
-  e.chans.mapM (fun (ch, ent) =>
-    match ent.data with
-    | .bp b => (forgeBP b).map (fun f => (ch, ChOut.forged f ent.flags includetime))
-    | .arr a sr =>
-      if includetime && !(Dict.has a "time") then
-        match sr with
-        | .num s => if s = 0 then .error .value else .ok (ch, ChOut.arrays a ent.flags (some (arrLen a, s)))
-        | _ => .error .type
-      else .ok (ch, ChOut.arrays a ent.flags none)
-    | .broken => .error .key)
+  e.chans.mapM (fun (ch, ent) => (chanOut includetime ent).map (fun o => (ch, o)))
 
 def copy (e : Element) : Element :=
   e   -- deepcopy: a value
 
+/-- equality of two channel entries as `dict.__eq__` sees them: blueprints by `BluePrint.__eq__`
+    (which does not look at the sample rate), raw arrays and flags by value -/
+def entEq (x y : ChEntry) : Bool :=
+  match x.data, y.data with
+  | .bp p, .bp q => p.beq q && x.flags == y.flags
+  | .arr p s, .arr q t => p == q && s == t && x.flags == y.flags
+  | .broken, .broken => x.flags == y.flags
+  | _, _ => false
+
 /-- `Element.__eq__` (after the fix: the cache is not compared) -/
-def beq (a b : Element) : Bool :=
-  Dict.eqBy (fun x y => match x.data, y.data with
-      | .bp p, .bp q => p.beq q && x.flags == y.flags
-      | .arr p s, .arr q t => p == q && s == t && x.flags == y.flags
-      | .broken, .broken => true
-      | _, _ => false) a.chans b.chans
+def beq (a b : Element) : Bool := Dict.eqBy entEq a.chans b.chans
 
 def withBP (e : Element) (ch : Chan) (f : BP → Res BP) : Res Element :=
   match Dict.get? e.chans ch with
